@@ -200,7 +200,7 @@ def rebuild_rule(an: Analysis, rep, rule: str, entries, doc=None):
     n = 0
     seen = set()
     for entry in entries:
-        for f in an.closure(entry):
+        for f in an.closure_all(entry):
             if f.qual in seen:
                 continue
             seen.add(f.qual)
@@ -259,12 +259,13 @@ def identity_rule(an: Analysis, rep, rule: str, entries):
     rep.rule(rule, "identity tests (`is`, `is not`) have a singleton operand or compare objects, never numbers / strings", 1)
     n = n_single = 0
     seen = set()
-    for entry in entries:
-        it, _ = an.interp(entry)
-        for f in an.closure(entry):
-            if (entry, f.qual) in seen:
+    from sa.analysis import VERSIONS as _VS
+    for entry, _V in [(e_, v_) for e_ in entries for v_ in _VS]:
+        it, _ = an.interp(entry, _V)
+        for f in an.closure(entry, _V):
+            if (entry, f.qual, _V) in seen:
                 continue
-            seen.add((entry, f.qual))
+            seen.add((entry, f.qual, _V))
             for c in ast.walk(f.node):
                 if not isinstance(c, ast.Compare):
                     continue
@@ -343,9 +344,10 @@ def ordering_rule(an: Analysis, rep, rule: str, entries):
     None) raises TypeError."""
     rep.rule(rule, "key-less sorted / min / max / .sort() / heapq.merge only over orderable values", 0)
     n = 0
-    for entry in entries:
-        it, _ = an.interp(entry)
-        for f in an.closure(entry):
+    from sa.analysis import VERSIONS as _VS
+    for entry, _V in [(e_, v_) for e_ in entries for v_ in _VS]:
+        it, _ = an.interp(entry, _V)
+        for f in an.closure(entry, _V):
             for c in ast.walk(f.node):
                 if not isinstance(c, ast.Call) or any(k.arg == "key" for k in c.keywords):
                     continue
@@ -390,9 +392,16 @@ def truthiness_rule(an: Analysis, rep, rule: str, entries, fields, what=None):
                 if attrs and attrs[-1] in names and a[2][-1][0] in ("a", "nt", "t"):
                     return attrs[-1]
         return None
-    for entry in entries:
-        it, _ = an.interp(entry)
-        for f in an.closure(entry):
+    from sa.analysis import VERSIONS
+    for entry, V in [(e, v) for e in entries for v in VERSIONS]:
+        it, _ = an.interp(entry, V)
+        # the same lines while they sit in the line mapping (values of the dict held in LineMapping.offset_to_line, shifted copies included)
+        held = set()
+        if not what:
+            for (o, fld), vals in list(it.heap.items()):
+                if fld == ("a", "offset_to_line") and o[0] == "obj" and (it.obj_class(o) or "").endswith("::LineMapping"):
+                    held |= {a for a in it.dict_values(vals) if a[0] in ("der", "src")}
+        for f in an.closure(entry, V):
             for node in ast.walk(f.node):
                 operands = []
                 if isinstance(node, ast.BoolOp):
@@ -403,9 +412,13 @@ def truthiness_rule(an: Analysis, rep, rule: str, entries, fields, what=None):
                 elif isinstance(node, ast.UnaryOp) and isinstance(node.op, ast.Not):
                     operands = [node.operand]
                 for x in operands:
+                    while isinstance(x, ast.Call) and isinstance(x.func, ast.Name) and x.func.id == "cast" and len(x.args) == 2:
+                        x = x.args[1]  # typing.cast(T, v) is v
                     if isinstance(x, (ast.Name, ast.Attribute, ast.Subscript)):
                         n += 1
                         fld = from_field(it, x)
+                        if not fld and held and (set(it.value_at(x)) & held):
+                            fld = "line_number"
                         if fld:
                             rep.add(rule, f"{f.qual}::truthiness of `{norm_src(x)}`", False, loc(f.module, x),
                                     (f"`{norm_src(x)}` holds {what}: testing it by truthiness treats the falsy value like 'absent', so it is silently dropped" if what else
@@ -450,9 +463,10 @@ def substring_rule(an: Analysis, rep, rule: str, entries):
     """`x in y` where y is a single string (a field declared str / Optional[str]) is a substring test: 'a' in 'args' is true."""
     rep.rule(rule, "no membership test against a single string where a name is meant (substring semantics)", 0)
     n = 0
-    for entry in entries:
-        it, _ = an.interp(entry)
-        for f in an.closure(entry):
+    from sa.analysis import VERSIONS as _VS
+    for entry, _V in [(e_, v_) for e_ in entries for v_ in _VS]:
+        it, _ = an.interp(entry, _V)
+        for f in an.closure(entry, _V):
             for c in ast.walk(f.node):
                 if not (isinstance(c, ast.Compare) and len(c.ops) == 1 and isinstance(c.ops[0], (ast.In, ast.NotIn))):
                     continue
@@ -484,7 +498,7 @@ def local_memo_rule(an: Analysis, rep, rule: str, entries):
     n = 0
     from .encode_model import parent_map
     for entry in entries:
-        for f in an.closure(entry):
+        for f in an.closure_all(entry):
             pm = parent_map(f.module)
             for st in ast.walk(f.node):
                 if not (isinstance(st, ast.Assign) and isinstance(st.value, ast.Call)):
@@ -532,7 +546,7 @@ def assert_guard_rule(an: Analysis, rep, rule: str, entries):
     n = 0
     seen = set()
     for entry in entries:
-        for f in an.closure(entry):
+        for f in an.closure_all(entry):
             if f.qual in seen:
                 continue
             seen.add(f.qual)
@@ -553,7 +567,7 @@ def loop_var_after_loop_rule(an: Analysis, rep, rule: str, entries):
     n = 0
     seen = set()
     for entry in entries:
-        for f in an.closure(entry):
+        for f in an.closure_all(entry):
             if f.qual in seen or not isinstance(f.node, ast.FunctionDef):
                 continue
             seen.add(f.qual)
@@ -597,7 +611,7 @@ def rejection_sites(an: Analysis, entries):
     out = []
     seen = set()
     for entry in entries:
-        for f in an.closure(entry):
+        for f in an.closure_all(entry):
             if f.qual in seen or not isinstance(f.node, (ast.FunctionDef, ast.AsyncFunctionDef)):
                 continue
             seen.add(f.qual)
@@ -675,3 +689,55 @@ def rejection_paths_rule(an: Analysis, rep, rule: str, entries, table, what: str
         listing = " | ".join(f"line {st.lineno} under [{'; '.join(conds)[:110] or 'fall-through'}]" for f, st, conds in sites)
         raise AnalysisError(f"{key[0]}: {len(sites)} place(s) where {what} stops with {key[1]}, {n} confirmed by reading ({listing}): "
                             f"whether valid input can reach the new one is not decided" + (f" (+{len(unknown) - 1} more function(s))" if len(unknown) > 1 else ""))
+
+
+def old_interpreter_rule(an: Analysis, rep, rule: str, entries):
+    """The package supports 3.7 - 3.10, its tests run on the newest interpreter only: a construct that needs a newer Python than 3.7 in code the API
+    reaches fails on the older hosts (at import when it is syntax, at run time when it is an operator or a method): walrus / positional-only
+    markers (3.8), dict union `|` / `|=`, str.removeprefix / removesuffix (3.9), match statements, zip(strict=), int.bit_count (3.10)."""
+    from sa.analysis import VERSIONS as _VS
+    rep.rule(rule, "no construct in the API closures needs an interpreter newer than the oldest supported one (3.7)", 0)
+    n = 0
+    seen = set()
+    for entry in entries:
+        for V in _VS:
+            it, _ = an.interp(entry, V)
+            for f in an.closure(entry, V):
+                for c in ast.walk(f.node):
+                    why = None
+                    if isinstance(c, ast.NamedExpr):
+                        why = ("an assignment expression `:=`", "3.8", "the module does not even import on 3.7 (SyntaxError)")
+                    elif isinstance(c, (ast.FunctionDef, ast.Lambda)) and c.args.posonlyargs:
+                        why = ("a positional-only parameter marker `/`", "3.8", "the module does not even import on 3.7 (SyntaxError)")
+                    elif hasattr(ast, "Match") and isinstance(c, ast.Match):
+                        why = ("a match statement", "3.10", "the module does not import on 3.7 - 3.9 (SyntaxError)")
+                    elif isinstance(c, (ast.AugAssign, ast.BinOp)) and isinstance(c.op, ast.BitOr):
+                        ops = [c.target, c.value] if isinstance(c, ast.AugAssign) else [c.left, c.right]
+                        n += 1
+
+                        def is_dict(e):
+                            if isinstance(e, (ast.Dict, ast.DictComp)):
+                                return True
+                            for a in it.value_at(e):
+                                if a[0] == "obj" and it.obj_kind(a) in ("dict", "defaultdict"):
+                                    return True
+                                if a[0] == "src":
+                                    try:
+                                        if it.tg.unfold_rec(it.src_type(a))[0] == "dict":
+                                            return True
+                                    except Exception:
+                                        pass
+                            return False
+                        if any(is_dict(e) for e in ops):
+                            why = ("the dict union operator `|` / `|=`", "3.9", "`TypeError: unsupported operand type(s) for |=: 'dict' and 'dict'` on 3.7 and 3.8")
+                    elif isinstance(c, ast.Call) and isinstance(c.func, ast.Attribute) and c.func.attr in ("removeprefix", "removesuffix"):
+                        why = (f"str.{c.func.attr}", "3.9", "AttributeError on 3.7 and 3.8")
+                    elif isinstance(c, ast.Call) and isinstance(c.func, ast.Attribute) and c.func.attr == "bit_count" and not c.args:
+                        why = ("int.bit_count", "3.10", "AttributeError on 3.7 - 3.9")
+                    elif isinstance(c, ast.Call) and isinstance(c.func, ast.Name) and c.func.id == "zip" and any(k.arg == "strict" for k in c.keywords):
+                        why = ("zip(strict=...)", "3.10", "TypeError on 3.7 - 3.9")
+                    if why and (f.qual, c.lineno, why[0]) not in seen:
+                        seen.add((f.qual, c.lineno, why[0]))
+                        rep.add(rule, f"{f.qual}::{norm_src(c)[:50]}", False, loc(f.module, c),
+                                f"`{norm_src(c)[:70]}` uses {why[0]}, which exists from Python {why[1]}: {why[2]} - the tests only run on the newest interpreter, so they stay green", config=entry)
+    rep.add(rule, "constructs newer than 3.7 in the API closures", True, "code_data/", f"closures of {list(entries)} examined ({n} `|` operators typed)", nontrivial=False)
